@@ -9,8 +9,9 @@ import PilotaModel.Lemmas.IdlFile
   separator, single or double quotes at every literal.
 
   STAGE REACHED: `file_rt_partial` covers documents whose items are `include`, `cpp_include`,
-  `namespace` and `typedef` (with every type form, `cpp_type`, annotations) — `Item.supported`.
-  The tower below it (`blank_any` … `type_rt`) is proved for the full grammar of those layers.
+  `namespace`, `typedef`, `const`, `enum`, `struct`, `union`, `exception` — with every type form,
+  `cpp_type`, annotations, field ids, requiredness, defaults, nested list / map literals — and excludes
+  (`Item.supported`): `service` items, and `double` literals inside constant values.
   Full statement, not yet proved:
 
     theorem file_rt (f : File) (hf : f.wf = true) (hne : f.items ≠ []) (l : Layout) :
@@ -51,6 +52,37 @@ to any depth — under every layout -/
 theorem type_rt (t : TypeA) (hw : t.wf = true) (d : Nat) (hd : t.depth < d) (l : Layout) (r : List Char)
     (hf : TypeFollow t r) : Type.parse d ((rType t l).1 ++ r) = .ok t r :=
   Pilota.Idl.type_rt t hw d hd l r hf
+
+/-- constant values: booleans, names, literals, integers, list and map literals nested to any depth
+(stage restriction `ConstValue.supported`: no `double` literal) -/
+theorem const_rt (c : ConstValue) (hw : c.wf = true) (hs : c.supported = true) (d : Nat) (hd : c.depth < d)
+    (l : Layout) (r : List Char) (hf : ConstFollow c r) : ConstValue.parse d ((rConst c l).1 ++ r) = .ok c r :=
+  Pilota.Idl.const_rt c hw hs d hd l r hf
+
+/-- a field under every layout: id, requiredness (in an argument list an omitted `required` is read
+as no requiredness, `fieldRead`), type, name, default, annotations, separator; `bl` is a blank left
+over by the previous element, `R` the next field or the closing bracket -/
+theorem field_rt (d : Nat) (f : Field) (hw : f.wf = true) (hsup : f.supported = true) (hd : f.depth < d)
+    (argMode last : Bool) (l : Layout)
+    (hhead : attrOpt argMode f.attr ((rB0 (rB0 l).2).2) = none →
+      f.ty.headIs cs!"required" = false ∧ f.ty.headIs cs!"optional" = false)
+    (bl R : List Char) (hbl : BT bl) (hR : FieldFollow R) (hlast : last = true → Sep R) :
+    skip (opt blank) (Field.parse d) (bl ++ ((rField argMode f last l).1 ++ R)) = .ok (fieldRead argMode f l) R :=
+  field_step hw hsup hd argMode last l hhead hbl hR hlast
+
+theorem structlike_rt (s : StructLike) (hw : s.wf = true) (hsup : s.supported = true) (d : Nat) (hd : s.depth < d)
+    (last : Bool) (l : Layout) (R : List Char) (hR : ItemStart R) :
+    ∃ g, BT g ∧ StructLike.parse d ((rStructLike s last l).1 ++ R) = .ok s (g ++ R) :=
+  structLike_rt hw hsup hd last l hR
+
+theorem enum_rt (e : Enum) (hw : e.wf = true) (d : Nat) (hd : 1 < d) (l : Layout) (b R : List Char) (hb : BT b)
+    (hR : ItemStart R) : ∃ g, BT g ∧ Enum.parse d ((rEnum e l).1 ++ (b ++ R)) = .ok e (g ++ R) :=
+  Pilota.Idl.enum_rt hw hd l hb hR
+
+theorem item_rt (it : Item) (hw : it.wf = true) (hs : it.supported = true) (d : Nat) (hd : it.depth < d)
+    (last : Bool) (l : Layout) (R : List Char) (hlast : last = true → R = []) (hR : ItemStart R) :
+    ∃ g, BT g ∧ Item.parse d ((rItem it last l).1 ++ R) = .ok it (g ++ R) :=
+  Pilota.Idl.item_rt hw hs hd last l hlast hR
 
 /-- An identifier that merely begins with a keyword (`trueValue`, `falsey`, `optionalFoo`,
 `required_x`, `i32x`, `stringify`, …) is never read as that keyword: wherever the parser tests
